@@ -37,7 +37,15 @@ def main():
                 rep = {'opened': op['w']}
                 del ds
             elif k == 'get':
-                rep = {'val': holders[op['w']][0][f"k{op['i']}" if op.get('by_key') else op['i']]}
+                ds_ = holders[op['w']][0]
+                if op.get('how') == 'np':               # the index as numpy integer
+                    import numpy as np
+                    rep = {'val': ds_[np.int64(op['i'])]}
+                elif op.get('how') == 'slice':          # through a slice (which indexes with numpy integers)
+                    rep = {'val': list(ds_[op['i']:op['i'] + 1])[0]}
+                else:
+                    rep = {'val': ds_[f"k{op['i']}" if op.get('by_key') else op['i']]}
+                del ds_           # (no stray reference: the wrapper must die with its last holder)
             elif k == 'next':
                 # the same access made by a plain iteration in flight (position op['i'])
                 if op['it'] not in its:
